@@ -263,8 +263,31 @@ size_t varintFloatEncode(uint8_t *output, const double *values,
     packBits(signs, count, 1, p);
     p += (count + 7) / 8;
 
+    /* COMMON_EXPONENT stores each exponent as an 8-bit offset from the
+     * smallest one; when the magnitudes in this array are spread wider than
+     * that, fall back to independent exponents (and say so in the header) */
+    varintFloatEncodingMode effectiveMode = mode;
+    if (mode == VARINT_FLOAT_MODE_COMMON_EXPONENT) {
+        int spreadMin = INT16_MAX;
+        int spreadMax = INT16_MIN;
+        for (size_t i = 0; i < count; i++) {
+            if (!special_flags[i]) {
+                if (exponents[i] < spreadMin) {
+                    spreadMin = exponents[i];
+                }
+                if (exponents[i] > spreadMax) {
+                    spreadMax = exponents[i];
+                }
+            }
+        }
+        if (spreadMax > spreadMin && spreadMax - spreadMin > UINT8_MAX) {
+            effectiveMode = VARINT_FLOAT_MODE_INDEPENDENT;
+            output[3] = (uint8_t)effectiveMode;
+        }
+    }
+
     /* Write exponents based on mode */
-    if (mode == VARINT_FLOAT_MODE_INDEPENDENT) {
+    if (effectiveMode == VARINT_FLOAT_MODE_INDEPENDENT) {
         /* Each exponent independently */
         for (size_t i = 0; i < count; i++) {
             if (!special_flags[i]) {
@@ -277,7 +300,7 @@ size_t varintFloatEncode(uint8_t *output, const double *values,
                 p += width;
             }
         }
-    } else if (mode == VARINT_FLOAT_MODE_COMMON_EXPONENT) {
+    } else if (effectiveMode == VARINT_FLOAT_MODE_COMMON_EXPONENT) {
         /* Find min/max exponents for non-special values */
         int16_t min_exp = INT16_MAX;
         int16_t max_exp = INT16_MIN;
